@@ -328,7 +328,7 @@ def run(rep):
     f = core.library_facts()
     rep.units.update(os.path.relpath(t, core.REPO) for t in f.tus)
     arrays_rule(rep, f)
-    arrays.soh_rule(rep, f, "C01.b", lambda fn: "/dom/impl/" not in fn["file"])
+    arrays.soh_rule(rep, f, "C01.b", lambda fn: True)
     throws_rule(rep, f)
     elemsize_rule(rep, f)
     adoption_rule(rep, f)
